@@ -141,6 +141,10 @@ func main() {
 	case "WrapperFacts":
 		src = genWrapperFacts(w, *dump)
 	default:
+		if strings.HasPrefix(*fact, "Fn_") {
+			src = genFnDefs(w, *dump, strings.TrimPrefix(*fact, "Fn_"))
+			break
+		}
 		fmt.Fprintln(os.Stderr, "unknown -fact", *fact)
 		os.Exit(2)
 	}
